@@ -72,7 +72,8 @@ site('init.c', 'designator', 'error', "%s has no member named '%s'",
      T('decl', 'union un_ x_ = { .zz_ = 1 };', "union has no member named 'zz_'", pre=PI),
      T('decl', 'struct s_ x_ = { .in_.zz_ = 1 };', "'zz_'", pre=PI))
 site('init.c', 'designator', 'error', 'index designator is larger than array length',
-     T('decl', 'int a_[2] = { [2] = 1 };'), T('decl', 'struct s_ x_ = { .arr_[3] = 1 };', pre=PI), T('decl', 'int a_[2][2] = { [1][5] = 1 };'))
+     T('decl', 'int a_[2] = { [2] = 1 };'), T('decl', 'struct s_ x_ = { .arr_[3] = 1 };', pre=PI), T('decl', 'int a_[2][2] = { [1][5] = 1 };'),
+     T('decl', 'int a_[] = { [0x4000000000000000] = 1 };'), T('decl', 'long a_[4] = { [0x2000000000000001] = 1 };'), n=2)
 site('init.c', 'designator', 'error', 'index designator is only valid for array types',
      T('decl', 'struct s_ x_ = { [0] = 1 };', pre=PI), T('decl', 'struct s_ x_ = { .a[0] = 1 };', pre=PI), T('decl', 'int x_ = { [0] = 1 };'))
 site('init.c', 'designator', 'error', 'member designator only valid for struct/union types',
